@@ -181,25 +181,54 @@ theorem not_mem_keysOf (m : LMap) (l : String) (h : l ∉ keysOf m) : hasKey m l
   intro p hp he
   exact h.2 p hp (by simpa using he)
 
-/-- **An accepted call's labels are fresh**: whatever `generate_revision` hands to the template
-    has the requested id and labels, and the labels are pairwise distinct, none of them a key of
-    the map (revision id or branch label) or the new id - for every map and all arguments. -/
+/-- **An accepted call's id and labels are fresh**: whatever `generate_revision` hands to the
+    template has the requested id and labels; the id is not a key of the map (neither a revision
+    id nor a branch label), the labels are pairwise distinct, none of them a key of the map or the
+    new id - for every map and all arguments. -/
 theorem generate_labels_fresh (m : LMap) (a : GenArgs) (r : Rev) (h : generateRevision m a = .ok r) :
-    r.id = a.revid ∧ r.labels = a.labels ∧ r.labels.Nodup ∧ ∀ l ∈ r.labels, hasKey m l = false ∧ l ≠ r.id := by
+    r.id = a.revid ∧ r.labels = a.labels ∧ hasKey m r.id = false ∧ r.labels.Nodup ∧
+      ∀ l ∈ r.labels, hasKey m l = false ∧ l ≠ r.id := by
   unfold generateRevision at h
   split at h
   · simp at h
   · split at h
-    · rename_i hfree
-      simp only [Except.ok.injEq] at h
-      subst h
-      obtain ⟨hn, hf⟩ := labelsFree_spec _ _ hfree
-      refine ⟨rfl, rfl, hn, ?_⟩
-      intro l hl
-      have := hf l hl
-      simp only [List.mem_cons, not_or] at this
-      exact ⟨not_mem_keysOf m l this.2, this.1⟩
     · simp at h
+    · rename_i hid
+      split at h
+      · rename_i hfree
+        simp only [Except.ok.injEq] at h
+        subst h
+        obtain ⟨hn, hf⟩ := labelsFree_spec _ _ hfree
+        refine ⟨rfl, rfl, not_mem_keysOf m _ hid, hn, ?_⟩
+        intro l hl
+        have := hf l hl
+        simp only [List.mem_cons, not_or] at this
+        exact ⟨not_mem_keysOf m l this.2, this.1⟩
+      · simp at h
+
+/-- `generate_revision` raises nothing but the error classes of its checks: when the other
+    arguments resolve, the only possible refusal is `CommandError` -/
+theorem generate_error_kind (m : LMap) (a : GenArgs) (x : List Id × List String) (hx : resolveArgs m a = .ok x) (e : Err)
+    (hg : generateRevision m a = .error e) : e = .commandError := by
+  unfold generateRevision at hg
+  rw [hx] at hg
+  simp only at hg
+  split at hg
+  · simp only [Except.error.injEq] at hg; exact hg.symm
+  · split at hg
+    · simp at hg
+    · simp only [Except.error.injEq] at hg; exact hg.symm
+
+/-- **A revision id that is already present is refused before the write**: if the other arguments
+    resolve and the requested id is a key of the map (an existing revision id or branch label),
+    `generate_revision` raises `CommandError`. -/
+theorem generate_refuses_present_id (m : LMap) (a : GenArgs) (x : List Id × List String) (hx : resolveArgs m a = .ok x)
+    (hk : hasKey m a.revid = true) : generateRevision m a = .error .commandError := by
+  cases hg : generateRevision m a with
+  | error e => rw [generate_error_kind m a x hx e hg]
+  | ok r =>
+    obtain ⟨hid, _, hf, _, _⟩ := generate_labels_fresh m a r hg
+    rw [hid, hk] at hf; simp at hf
 
 /-- **A taken label is refused before the write**: if the other arguments resolve and some
     requested label is a key of the map, equals the new id, or is repeated within the call, then
@@ -208,15 +237,9 @@ theorem generate_refuses_taken_label (m : LMap) (a : GenArgs) (x : List Id × Li
     (ht : (∃ l ∈ a.labels, hasKey m l = true ∨ l = a.revid) ∨ ¬ a.labels.Nodup) :
     generateRevision m a = .error .commandError := by
   cases hg : generateRevision m a with
-  | error e =>
-    unfold generateRevision at hg
-    rw [hx] at hg
-    simp only at hg
-    split at hg
-    · simp at hg
-    · simp only [Except.error.injEq] at hg; rw [hg]
+  | error e => rw [generate_error_kind m a x hx e hg]
   | ok r =>
-    obtain ⟨hid, hl, hn, hf⟩ := generate_labels_fresh m a r hg
+    obtain ⟨hid, hl, _, hn, hf⟩ := generate_labels_fresh m a r hg
     rcases ht with ⟨l, hlm, hk⟩ | hnd
     · have := hf l (hl ▸ hlm)
       rcases hk with hk | hk
@@ -229,7 +252,7 @@ theorem generate_refuses_taken_label (m : LMap) (a : GenArgs) (x : List Id × Li
     file is ever written and then refused because of its branch labels -/
 theorem accepted_labels_pass_add_revision (m : LMap) (a : GenArgs) (r : Rev) (h : generateRevision m a = .ok r) :
     addLabelKeys (m.ids ++ [r.id]) r.id r.labels m.labelKeys = .ok (m.labelKeys ++ r.labels.map (fun l => (l, r.id))) := by
-  obtain ⟨_, _, hn, hf⟩ := generate_labels_fresh m a r h
+  obtain ⟨_, _, _, hn, hf⟩ := generate_labels_fresh m a r h
   apply Lemmas.Gen.addLabelKeys_intro _ _ _ _ hn
   intro l hl
   obtain ⟨hk, hne⟩ := hf l hl
@@ -248,6 +271,10 @@ example : (match load f5History with
                (match generateRevision m { revid := "d", heads := ["head"], splice := false, labels := ["d"], deps := [] } with
                 | .error .commandError => true | _ => false) &&
                (match generateRevision m { revid := "d", heads := ["head"], splice := false, labels := ["M", "M"], deps := [] } with
+                | .error .commandError => true | _ => false) &&
+               (match generateRevision m { revid := "a", heads := ["head"], splice := false, labels := [], deps := [] } with
+                | .error .commandError => true | _ => false) &&
+               (match generateRevision m { revid := "L", heads := ["base"], splice := false, labels := [], deps := [] } with
                 | .error .commandError => true | _ => false) &&
                (match generateRevision m { revid := "d", heads := ["head"], splice := false, labels := ["M"], deps := ["L@head"] } with
                 | .ok r => r.down == ["a"] && r.deps == ["a"] && r.labels == ["M"] | _ => false)
